@@ -439,6 +439,117 @@ func c07(c *core.Ctx) {
 		c.Check("exempt-premise/SetSuicide-only-from-selfdestruct", "who-may-call", okS && len(names) >= 2, token.NoPos, "callers of SetSuicide: %v", names)
 	})
 
+	c.Clause("C07.4d", "undo and redo reach the account only through the accessor setters their journalling setter uses (sibling agreement), and copy-in setters re-initialise their destination before they copy, so that setting the old value removes what the reverted write added")
+	c.Run("sibling-setters", func() {
+		extra := map[string]map[string]string{
+			"SuicideLog": {"SetBalance": "restores the balance SetSuicide(true) zeroed", "SetCodeHash": "restores the code hash SetSuicide(true) cleared", "SetStorageRoot": "restores the storage root SetSuicide(true) cleared"},
+		}
+		nT := 0
+		for _, v := range order {
+			lt := lts[v]
+			if lt.undo == nil || lt.redo == nil || len(lt.setter) == 0 {
+				continue
+			}
+			nT++
+			doSet := map[string]bool{}
+			for _, st := range lt.setter {
+				for _, ci := range core.AllCalls(st) {
+					if o := core.CalleeObj(ci); o != nil && mutator[o] != nil {
+						doSet[o.Name()] = true
+					}
+				}
+			}
+			for _, ur := range []struct {
+				kind string
+				fn   *ssa.Function
+			}{{"undo", lt.undo}, {"redo", lt.redo}} {
+				for _, ci := range core.AllCalls(ur.fn) {
+					cc := ci.Common()
+					if cc.IsInvoke() && namedOfType(cc.Value.Type()) == "AccountAccessor" {
+						// is this accessor method a mutator of *Account?
+						var mo *types.Func
+						for m := range mutator {
+							if m.Name() == cc.Method.Name() {
+								mo = m
+							}
+						}
+						if mo == nil {
+							continue
+						}
+						_, exempt := extra[lt.name][mo.Name()]
+						c.Check(ur.kind+"/"+lt.name+"→"+mo.Name(), "sibling-agreement", doSet[mo.Name()] || exempt, ci.Pos(), "%s of %s writes through %s; the journalling setter writes through %v", ur.kind, lt.name, mo.Name(), core.SortedKeys(doSet))
+						continue
+					}
+					// any other call inside package account that writes account state bypasses the accessor
+					callee := core.StaticFn(ci)
+					if callee == nil || core.RelPkg(callee) != accPkg || callee.Blocks == nil {
+						continue
+					}
+					w := ea.Of(callee, core.Binding{}).Writes
+					writes := false
+					for _, pth := range w {
+						for _, tn := range []string{accName, "account.StorageCache", "types.AccountData"} {
+							if suf, ok := pth.SuffixFrom(tn); ok && suf != "" && !cacheFill(suf) {
+								writes = true
+							}
+						}
+					}
+					c.Check(ur.kind+"/"+lt.name+":bypass:"+callee.Name(), "sibling-agreement", !writes, ci.Pos(), "%s of %s calls %s, which writes account state without going through an accessor setter of its journalling sibling", ur.kind, lt.name, shortFn(callee))
+				}
+			}
+		}
+		c.Floor("types", nT, 15)
+		// copy-in setters: raw mutators that copy a map or slice parameter element-wise
+		nc := 0
+		for m := range mutator {
+			fn := c.FuncOf(m)
+			if fn == nil {
+				continue
+			}
+			for _, b := range fn.Blocks {
+				for _, in := range b.Instrs {
+					switch x := in.(type) {
+					case *ssa.MapUpdate:
+						// destination map loaded from a field; source: iteration over a parameter
+						ld, isLd := x.Map.(*ssa.UnOp)
+						if !isLd {
+							continue
+						}
+						f := core.FieldOf(ld.X)
+						if f == nil || !fromParamRange(x.Value, fn) {
+							continue
+						}
+						nc++
+						c.Check("copy-in/"+m.Name()+"#"+f.Name(), "reinitialised-before-copy", freshStoreDominates(fn, f, x), x.Pos(), "%s copies its argument into %s element by element: the field must be set to a fresh map on every path first, or keys of the previous value survive", m.Name(), f.Name())
+					case *ssa.Store:
+						f := core.FieldOf(x.Addr)
+						ap, isAp := x.Val.(*ssa.Call)
+						if f == nil || !isAp {
+							continue
+						}
+						bi, isB := ap.Call.Value.(*ssa.Builtin)
+						if !isB || bi.Name() != "append" || len(ap.Call.Args) != 2 {
+							continue
+						}
+						isParam := false
+						for _, p := range fn.Params {
+							// the parameter itself is spread (`append(dst, param...)`), not a single element wrapped in a varargs array
+							if core.Derived(p)[ap.Call.Args[1]] {
+								isParam = true
+							}
+						}
+						if !isParam || !core.SliceHasField(core.Slice(ap.Call.Args[0]), f) {
+							continue
+						}
+						nc++
+						c.Check("copy-in/"+m.Name()+"#"+f.Name(), "reinitialised-before-copy", freshStoreDominates(fn, f, x), x.Pos(), "%s appends its argument to %s: the field must be set to a fresh slice on every path first", m.Name(), f.Name())
+					}
+				}
+			}
+		}
+		c.Floor("copy-in-setters", nc, 2)
+	})
+
 	c.Clause("C07.4b", "undo restores from what was recorded: every constructor stores OldVal from a read of the account made before the write, and every undo passes a value derived from c.OldVal to the raw setter")
 	c.Run("undo-from-oldval", func() {
 		oldF := c.FieldVar("chain/types.ChangeLog", "OldVal")
@@ -948,4 +1059,37 @@ func checkPairing(c *core.Ctx, fn *ssa.Function, snaps, revs []ssa.CallInstructi
 		}
 		c.Check(key+":guards-a-step", "pairing", steps >= 1, s.Pos(), "the snapshot of %s protects at least one failing step (%d found)", name, steps)
 	}
+}
+
+// fromParamRange: the value is an element obtained by ranging over a parameter of fn.
+func fromParamRange(v ssa.Value, fn *ssa.Function) bool {
+	for x := range core.Slice(v) {
+		if rg, ok := x.(*ssa.Range); ok {
+			for _, p := range fn.Params {
+				if core.Slice(rg.X)[p] {
+					return true
+				}
+			}
+		}
+	}
+	return false
+}
+
+// freshStoreDominates: a store of a freshly made map/slice into field f dominates instruction at.
+func freshStoreDominates(fn *ssa.Function, f *types.Var, at ssa.Instruction) bool {
+	for _, b := range fn.Blocks {
+		for _, in := range b.Instrs {
+			st, ok := in.(*ssa.Store)
+			if !ok || core.FieldOf(st.Addr) != f || st == at {
+				continue
+			}
+			switch st.Val.(type) {
+			case *ssa.MakeMap, *ssa.MakeSlice:
+				if core.Dominates(st, at) {
+					return true
+				}
+			}
+		}
+	}
+	return false
 }
